@@ -320,6 +320,7 @@ func c16phases(env sched.Env) *sched.Report {
 				sched.Progress(cs)
 				sig, detail := c16phaseRun(cs)
 				rep.Execs++
+				sched.Progress(nil)
 				rep.Transitions += int64(len(ops))
 				if sig != "" {
 					rep.Outcomes["violation: "+sig]++
